@@ -4,7 +4,7 @@ cd "$(dirname "$0")" || exit 2
 mkdir -p build/include
 export CARGO_NET_OFFLINE=true
 RESOLVO_GENERATED_INCLUDE_DIR="$PWD/build/include" cargo build --release --offline --quiet 2> build/cargo.log || { cat build/cargo.log; exit 1; }
-FLAGS="-std=c++17 -O1 -g -fsanitize=address -fno-omit-frame-pointer -I /repo/cpp/include -I build/include"
+FLAGS="-std=c++17 -O1 -g -fsanitize=address,undefined -fno-sanitize-recover=undefined -fno-omit-frame-pointer -I /repo/cpp/include -I build/include"
 for d in solve_diff replay_cow; do
   [ -f $d.cpp ] || continue
   clang++ $FLAGS $d.cpp target/release/libverif_ffi.a -lpthread -ldl -lm -o build/$d 2> build/$d.log || { cat build/$d.log; exit 1; }
